@@ -1,4 +1,5 @@
 import BornoModel.Cli
+import BornoModel.Lemmas.EvalInv
 /-! # C19 — exit status and output streams classify every run -/
 namespace Borno.Props.C19
 open Borno Cli
@@ -42,6 +43,115 @@ theorem usage_and_extension (P : Platform) (fuel : Nat) (args : List (List Char)
   · intro p hp he hf
     subst hp; subst hf
     simp [main, mode, he, Expect.exitRead]
+
+/-! ## streams -/
+
+/-- in every store a program run reaches, stdout is exactly the texts of the print events (prints,
+    echoes, prompts) in order, the diagnostics are exactly the reported ones in order — neither
+    leaks into the other —, the error flag is set iff a diagnostic was reported, and the call counter
+    counts the built-in entries -/
+theorem streams_are_trace_projections (P : Platform) (fuel : Nat) (prog : List Stmt) (repl : Bool) (input : List Char) (σ : Store)
+    (h : interpret P fuel prog repl input = .ok () σ) : LogOk σ := by
+  have := sat_interpretLoop P fuel prog 1 repl (initStore input)
+  unfold interpret at h
+  rw [h] at this
+  exact this.log_ok ⟨rfl, rfl, rfl, rfl⟩
+
+theorem renderDiag_ne_nil (d : Diag) : renderDiag d ≠ [] := by
+  cases d with
+  | «static» line wher msg => unfold renderDiag; exact List.append_ne_nil_of_right_ne_nil _ (by simp)
+  | runtime msg line => unfold renderDiag; exact List.append_ne_nil_of_right_ne_nil _ (by decide)
+
+theorem stderr_empty_iff (ds : List Diag) : ds.flatMap renderDiag = [] ↔ ds = [] := by
+  cases ds with
+  | nil => simp
+  | cons d ds =>
+    simp only [List.flatMap_cons, List.append_eq_nil_iff, reduceCtorEq, iff_false, not_and]
+    intro h; exact absurd h (renderDiag_ne_nil d)
+
+/-- **status 0 iff nothing on stderr** (for every run that ends; `abnormal` marks the model's fuel
+    bound and the two known crash classes), 65 iff a lexical / syntax diagnostic, 70 iff only
+    runtime diagnostics -/
+theorem status0_iff_clean (P : Platform) (fuel : Nat) (src input : List Char)
+    (hab : (run P fuel src false input).abnormal = none) :
+    let r := run P fuel src false input
+    (fileStatus r = 0 ↔ r.stderr = []) ∧
+    (fileStatus r = 65 ↔ r.staticDiags ≠ []) ∧
+    (fileStatus r = 70 ↔ (r.staticDiags = [] ∧ r.runtimeDiags ≠ [])) := by
+  unfold run at hab ⊢
+  cases hfa : (frontEnd P.lm src).abnormal with
+  | some a => simp [hfa] at hab
+  | none =>
+    simp only [hfa] at hab ⊢
+    cases hd : (frontEnd P.lm src).diags with
+    | cons d ds =>
+      simp [hd, fileStatus, RunOut.stderr, Expect.exitSyntax, renderDiag_ne_nil]
+    | nil =>
+      simp only [hd, List.isEmpty_nil, Bool.not_true, Bool.false_eq_true, if_false] at hab ⊢
+      cases hp : (frontEnd P.lm src).prog with
+      | none => simp [hp] at hab
+      | some prog =>
+        simp only [hp] at hab ⊢
+        cases hi : interpret P fuel prog false input with
+        | abn a => simp [hi] at hab
+        | ok u σ =>
+          have hlog := streams_are_trace_projections P fuel prog false input σ (by cases u; exact hi)
+          obtain ⟨_, _, hflag, _⟩ := hlog
+          simp only [fileStatus, RunOut.stderr, List.nil_append, Bool.false_eq_true, if_false, Expect.exitRuntime, Expect.exitSyntax,
+            stderr_empty_iff]
+          cases hds : σ.diags with
+          | nil => simp [hflag, hds]
+          | cons d ds => simp [hflag, hds]
+
+/-! ## `ইনপুট` -/
+
+/-- `ইনপুট` consumes exactly one line of stdin — up to and including its newline, or the
+    unterminated rest — and returns it trimmed; the optional prompt goes to stdout first; at end of
+    input it is an error and nothing is consumed -/
+theorem input_consumes_one_line (σ : Store) (l rest : List Char) :
+    (readLine σ.input = some (l, rest) →
+      callInput [] σ = (σ.consume rest, .ok (.str (trimSpace l))) ∧
+      ∀ p, callInput [.str p] σ = ((σ.print p).consume rest, .ok (.str (trimSpace l)))) ∧
+    (readLine σ.input = none → ∃ m, callInput [] σ = (σ, .error m)) := by
+  constructor
+  · intro h
+    constructor
+    · simp [callInput, inputPrompt, h]
+    · intro p
+      have : (σ.print p).input = σ.input := rfl
+      simp [callInput, inputPrompt, this, h]
+  · intro h
+    exact ⟨"failed to read input: EOF".toList, by simp [callInput, inputPrompt, h]⟩
+
+/-- a line is the text up to the first newline; what follows it is left for the next read -/
+theorem readLine_splits (inp : List Char) (l rest : List Char) (h : readLine inp = some (l, rest)) :
+    l ++ rest = inp ∧ (∀ c ∈ l.dropLast, c ≠ '\n') := by
+  unfold readLine at h
+  cases inp with
+  | nil => cases h
+  | cons c cs =>
+    simp only at h
+    have hsplit := List.takeWhile_append_dropWhile (p := (· ≠ '\n')) (l := c :: cs)
+    have hall : ∀ x ∈ (c :: cs).takeWhile (· ≠ '\n'), x ≠ '\n' := by
+      intro x hx
+      have := ListAux.takeWhile_forall (· ≠ '\n') (c :: cs) x hx
+      simpa using this
+    split at h
+    · rename_i hr
+      simp only [Option.some.injEq, Prod.mk.injEq] at h
+      obtain ⟨rfl, rfl⟩ := h
+      rw [hr, List.append_nil] at hsplit
+      exact ⟨by rw [List.append_nil]; exact hsplit, fun x hx => hall x (List.dropLast_subset _ hx)⟩
+    · rename_i q rest' hr
+      simp only [Option.some.injEq, Prod.mk.injEq] at h
+      obtain ⟨rfl, rfl⟩ := h
+      have hq : q = '\n' := by
+        have := ListAux.dropWhile_head (· ≠ '\n') (c :: cs) q rest' hr
+        simpa using this
+      subst hq
+      refine ⟨by rw [List.append_assoc, List.singleton_append, ← hr]; exact hsplit, fun x hx => ?_⟩
+      rw [List.dropLast_concat] at hx
+      exact hall x hx
 
 /-- the extension is the suffix from the last dot of the last path element -/
 example : ext "a.bn".toList = ".bn".toList ∧ ext "a.bn.txt".toList = ".txt".toList ∧ ext "d.bn/x".toList = [] ∧
